@@ -2,6 +2,7 @@ import AkVerif.Gen.C15
 import AkVerif.Lemmas.SqlFilter
 import AkVerif.Lemmas.SqlFilterText
 import AkVerif.Lemmas.SqlFilterSort
+import AkVerif.Lemmas.SqlFilterOrder
 /-!
 # C15 — SQL filters select exactly the intended rows; values are always bound
 
@@ -47,16 +48,28 @@ theorem consts_ok (pct : Bool) :
       words Gen.C15.orderPfx = ["ORDER".toList, "BY".toList]) := by
   cases pct <;> decide
 
+/-- The keyword arguments that are options and not filters are exactly `_order_by` and
+`_as_scalars` (names read from `_execute` by the translator; the translator refuses a source that
+takes anything else out of `kwargs`). -/
+theorem option_keys (k : Str) :
+    isOptionKey k = true ↔ k = "_order_by".toList ∨ k = "_as_scalars".toList := by
+  simp [isOptionKey, show Gen.C15.orderKey = "_order_by".toList from by decide,
+    show Gen.C15.scalarsKey = "_as_scalars".toList from by decide]
+
 /-- A call never fails in another way than: `ValueError` / `AttributeError` from a condition
-constructor, or sqlite3 refusing a parameter. In particular no clause lookup fails (`KeyError`),
-whatever the operation, the flavour and the shape of the conditions. -/
+constructor, sqlite3 refusing a parameter, or `TypeError` when `_order_by` is neither `None` nor a
+`str`. In particular no clause lookup fails (`KeyError`), whatever the operation, the flavour and
+the shape of the conditions. -/
 theorem only_rejections (pct : Bool) (st : Stmt) (call : Call) (e : Fail)
     (h : prepare pct st call = .error e) :
-    e = .py .valueError ∨ e = .py .attributeError ∨ e = .bind := by
-  rcases prepare_fail h with (h | h) | h
+    e = .py .valueError ∨ e = .py .attributeError ∨ e = .bind ∨
+      (e = .py .typeError ∧ ∃ a, lookupKw Gen.C15.orderKey call.kwargs = some a ∧ a ≠ .scalar .null ∧
+        ∀ s, a ≠ .scalar (.text s)) := by
+  rcases prepare_fail h with (h | h) | h | h
   · exact Or.inl h
   · exact Or.inr (Or.inl h)
-  · exact Or.inr (Or.inr h)
+  · exact Or.inr (Or.inr (Or.inl h))
+  · exact Or.inr (Or.inr (Or.inr h))
 
 /-- The value of the WHERE clause on a row, with the bound parameters, is the three-valued AND of
 what the caller's conditions mean (`intended`: `=`/`!=` with `None` is `IS [NOT] NULL`, with a
@@ -67,15 +80,17 @@ whatever order the keyword arguments were given. -/
 theorem selects_eval (pct : Bool) (st : Stmt) (call : Call) (p : Prepared)
     (h : prepare pct st call = .ok p) (row : Row) :
     sem row p.conj p.params =
-      andAll (intendeds row (call.args.filterMap id) ++ intendedKw row call.kwargs) :=
+      andAll (intendeds row (call.args.filterMap id) ++ intendedKw row (filterKwargs call.kwargs)) :=
   prepare_sem h row
 
-/-- A row is selected (WHERE clause true) iff every condition the caller wrote is true for it. -/
+/-- A row is selected (WHERE clause true) iff every condition the caller wrote is true for it:
+every positional condition and every keyword argument other than the two options — whatever its
+name (leading underscore, upper case, quoted, …). -/
 theorem selects (pct : Bool) (st : Stmt) (call : Call) (p : Prepared)
     (h : prepare pct st call = .ok p) (row : Row) :
     sem row p.conj p.params = some .tt ↔
       (∀ c, some c ∈ call.args → intended row c = some .tt) ∧
-      (∀ k a, (k, a) ∈ call.kwargs → intended row (.pair k a) = some .tt) := by
+      (∀ k a, (k, a) ∈ call.kwargs → isOptionKey k = false → intended row (.pair k a) = some .tt) := by
   rw [selects_eval pct st call p h row, andAll_eq_tt]
   constructor
   · intro hall
@@ -84,28 +99,25 @@ theorem selects (pct : Bool) (st : Stmt) (call : Call) (p : Prepared)
       apply hall
       rw [List.mem_append, mem_intendeds]
       exact Or.inl ⟨c, by simpa using hc, rfl⟩
-    · intro k a hk
+    · intro k a hk hno
       apply hall
       rw [List.mem_append, mem_intendedKw]
-      exact Or.inr ⟨(k, a), hk, rfl⟩
+      exact Or.inr ⟨(k, a), by simp [filterKwargs, hk, hno], rfl⟩
   · rintro ⟨h1, h2⟩ x hx
     rw [List.mem_append, mem_intendeds, mem_intendedKw] at hx
     rcases hx with ⟨c, hc, rfl⟩ | ⟨⟨k, a⟩, hk, rfl⟩
     · exact h1 c (by simpa using hc)
-    · exact h2 k a hk
+    · simp only [filterKwargs, List.mem_filter, Bool.not_eq_true'] at hk
+      exact h2 k a hk.1 hk.2
 
 /-- The statement text carries exactly one placeholder mark (`?`, or the `%` of `%s`) per bound
 value, provided the caller's own texts — SELECT…FROM, the column expressions of the conditions,
-GROUP BY, ORDER BY — contain none. (Order: `sem` consumes the parameters in the order of the
-marks in the text, so `selects` is also the statement that the k-th mark meets the k-th value.) -/
+GROUP BY, the ORDER BY in effect — contain none: `clean`, a decidable predicate that the driver
+evaluates on every request (the count it reports in the `sql` reply is `p.params.length`). -/
 theorem placeholders (pct : Bool) (st : Stmt) (call : Call) (p : Prepared)
-    (h : prepare pct st call = .ok p)
-    (hf : ∀ f ∈ call.fields, f.count (marker pct) = 0)
-    (hs : st.selectFrom.count (marker pct) = 0)
-    (hg : ∀ g, st.groupBy = some g → g.count (marker pct) = 0)
-    (ho : ∀ o, st.orderBy = some o → o.count (marker pct) = 0) :
+    (h : prepare pct st call = .ok p) (hc : clean pct st call = true) :
     p.text.count (marker pct) = p.params.length :=
-  prepare_count h hf hs hg ho
+  prepare_count h hc
 
 /-- Matching order. The text of a conjunction is the texts of its clauses from left to right
 (`renders`, `joinSep`), and so on inside OR groups; evaluating a clause consumes, from the front
@@ -145,14 +157,20 @@ theorem none_ignored (pct : Bool) (st : Stmt) (args : List (Option Cond)) (kw : 
     prepare pct st { args := args ++ [none], kwargs := kw } = prepare pct st { args := args, kwargs := kw } := by
   constructor <;> simp [prepare, filters]
 
-/-- Keyword filters may be written in any order: the prepared statement (AST, text and bound
+/-- Keyword arguments may be written in any order: the prepared statement (AST, text and bound
 values) is the same for every permutation of the keyword arguments (Python guarantees distinct
-keyword names), at top level and inside an OR group. -/
+keyword names), at top level (options included) and inside an OR group. -/
 theorem kwargs_order (pct : Bool) (st : Stmt) (args : List (Option Cond)) (cs : List Cond)
     (kw kw' : List (Str × Arg)) (hp : kw.Perm kw') (hn : (kw.map (·.1)).Nodup) :
     prepare pct st { args := args, kwargs := kw } = prepare pct st { args := args, kwargs := kw' } ∧
     mkCond (.or cs kw) = mkCond (.or cs kw') := by
-  constructor <;> simp [prepare, filters, mkCond, sortKw_perm kw kw' hp hn]
+  have hf : sortKw (filterKwargs kw) = sortKw (filterKwargs kw') :=
+    sortKw_perm _ _ (hp.filter _) (filterKwargs_nodup kw hn)
+  have ho : orderClause st kw = orderClause st kw' := by
+    simp [orderClause, lookupKw_perm _ kw kw' hp hn]
+  constructor
+  · simp [prepare, filters, hf, ho]
+  · simp [mkCond, sortKw_perm kw kw' hp hn]
 
 /-- SQL's `IN` as the model (and the caller's intent) reads it: true iff some member equals the
 cell, false iff every member is different and none is NULL (the empty list included) — hence
@@ -177,29 +195,36 @@ theorem in_semantics (x : Value) (vs : List Value) :
     | nil => exact absurd rfl hne
     | cons v vs => rcases key vs with h | h <;> simp [inSem, cmp3, h, Tri.or]
 
-/-- What a call returns. If `run` answers `res`, then the statement was prepared; every row of
-the table gives a value to every column expression of the clause (all of them written by the
-caller); the rows selected are exactly the rows of the table — in table order — on which every
-condition the caller wrote is true (`satisfied`, i.e. the right-hand side of `selects`); they are
-permuted by the model of SQLite's ORDER BY when an order was requested; and `res` is what the
-method (`list`, `one`, `one_or_none`) makes of that list. -/
-theorem returns_exactly (pct : Bool) (selectFrom : Str) (groupBy : Option Str) (order : Option OrderSpec)
+/-- What a call returns. If `run` answers `res`, then the statement was prepared; the ORDER BY
+text in effect is the rendering of `order`; every row of the table gives a value to every column
+expression of the clause (all of them written by the caller); the rows selected are exactly the
+rows of the table — in table order — on which every condition the caller wrote is true
+(`satisfied`, i.e. the right-hand side of `selects`); when an order is in effect they are
+rearranged (a permutation) into that order — no returned row comes strictly before an earlier one
+under the keys, `DESC` flags and SQLite's order of values (`value_order`), which is the model of
+SQLite's ORDER BY; and `res` is what the method (`list`, `one`, `one_or_none`) makes of that list. -/
+theorem returns_exactly (pct : Bool) (st : Stmt) (order : Option OrderSpec)
     (call : Call) (m : Method) (table : List Cells) (res : Option (List Cells))
-    (h : run pct selectFrom groupBy order call m table = .ok res) :
+    (h : run pct st order call m table = .ok res) :
     ∃ fields sel sorted,
+      orderClause st call.kwargs = .ok (order.map orderText) ∧
       (∀ f ∈ fields, f ∈ call.fields) ∧
       (∀ r ∈ table, ∃ row, r.row? fields = some row) ∧
       sel = table.filter (fun r =>
         match r.row? fields with
         | some row => satisfied row call
         | none => false) ∧
-      (order = none → sorted = sel) ∧ (∀ o, order = some o → sortRows o sel = some sorted) ∧
+      (order = none → sorted = sel) ∧
+      (∀ o, order = some o → sortRows o sel = some sorted ∧ SortedRows o sorted) ∧
       sorted.Perm sel ∧ finish m sorted = .ok res := by
   simp only [run, bind, Except.bind] at h
-  cases hp : prepare pct { selectFrom := selectFrom, groupBy := groupBy, orderBy := order.map orderText } call with
+  cases hp : prepare pct st call with
   | error e => simp [hp] at h
   | ok p =>
     simp only [hp] at h
+    by_cases hord : orderClause st call.kwargs = .ok (order.map orderText)
+    case neg => simp [hord] at h
+    simp only [hord, ne_eq, not_true_eq_false, if_false] at h
     cases hsel : selectRows (wheresFields p.conj) p.conj p.params table with
     | none => simp [hsel] at h
     | some sel =>
@@ -219,7 +244,7 @@ theorem returns_exactly (pct : Bool) (selectFrom : Str) (groupBy : Option Str) (
       cases order with
       | none =>
         simp only [] at h
-        exact ⟨_, sel, sel, prepare_fields hp, hrows, hsat, fun _ => rfl, (fun o ho => by cases ho),
+        exact ⟨_, sel, sel, hord, prepare_fields hp, hrows, hsat, fun _ => rfl, (fun o ho => by cases ho),
           List.Perm.refl _, h⟩
       | some o =>
         simp only [] at h
@@ -227,14 +252,28 @@ theorem returns_exactly (pct : Bool) (selectFrom : Str) (groupBy : Option Str) (
         | none => simp [hso] at h
         | some sorted =>
           simp only [hso] at h
-          exact ⟨_, sel, sorted, prepare_fields hp, hrows, hsat, (fun ho => by cases ho),
-            (fun o' ho' => by cases ho'; exact hso), sortRows_perm o sel sorted hso, h⟩
+          exact ⟨_, sel, sorted, hord, prepare_fields hp, hrows, hsat, (fun ho => by cases ho),
+            (fun o' ho' => by cases ho'; exact ⟨hso, sortRows_sorted o sel sorted hso⟩),
+            sortRows_perm o sel sorted hso, h⟩
+
+/-- The order of values used by comparisons and by ORDER BY is a strict total order with NULL
+first, then integers by value, then texts (code points); so is, key by key with `DESC` flipping a
+key, the order of rows (`rowBefore`: never both ways, transitive). -/
+theorem value_order :
+    (∀ a, vLt a a = false) ∧ (∀ a b c, vLt a b = true → vLt b c = true → vLt a c = true) ∧
+    (∀ a b, a ≠ b → vLt a b = true ∨ vLt b a = true) ∧
+    (∀ i s, vLt .null (.int i) = true ∧ vLt (.int i) (.text s) = true ∧ vLt .null (.text s) = true) ∧
+    (∀ i j : Int, vLt (.int i) (.int j) = true ↔ i < j) ∧
+    (∀ o r s, rowBefore o r s = some true → rowBefore o s r = some false) ∧
+    (∀ o r s t, rowBefore o r s = some true → rowBefore o s t = some true → rowBefore o r t = some true) :=
+  ⟨vLt_irrefl, vLt_trans, vLt_total, fun _ _ => ⟨rfl, rfl, rfl⟩, fun i j => by simp [vLt],
+   rowBefore_asymm, rowBefore_trans⟩
 
 /-- `satisfied` is the right-hand side of `selects` -/
 theorem satisfied_iff (row : Row) (call : Call) :
     satisfied row call = true ↔
       (∀ c, some c ∈ call.args → intended row c = some .tt) ∧
-      (∀ k a, (k, a) ∈ call.kwargs → intended row (.pair k a) = some .tt) := by
+      (∀ k a, (k, a) ∈ call.kwargs → isOptionKey k = false → intended row (.pair k a) = some .tt) := by
   simp only [satisfied, decide_eq_true_eq, andAll_eq_tt]
   constructor
   · intro hall
@@ -243,15 +282,16 @@ theorem satisfied_iff (row : Row) (call : Call) :
       apply hall
       rw [List.mem_append, mem_intendeds]
       exact Or.inl ⟨c, by simpa using hc, rfl⟩
-    · intro k a hk
+    · intro k a hk hno
       apply hall
       rw [List.mem_append, mem_intendedKw]
-      exact Or.inr ⟨(k, a), hk, rfl⟩
+      exact Or.inr ⟨(k, a), by simp [filterKwargs, hk, hno], rfl⟩
   · rintro ⟨h1, h2⟩ x hx
     rw [List.mem_append, mem_intendeds, mem_intendedKw] at hx
     rcases hx with ⟨c, hc, rfl⟩ | ⟨⟨k, a⟩, hk, rfl⟩
     · exact h1 c (by simpa using hc)
-    · exact h2 k a hk
+    · simp only [filterKwargs, List.mem_filter, Bool.not_eq_true'] at hk
+      exact h2 k a hk.1 hk.2
 
 /-- `list` returns the rows as they come, `one` succeeds iff exactly one row was selected,
 `one_or_none` (and `SqlMethodT.one_or_none`) iff at most one; otherwise `ValueError`. -/
@@ -303,6 +343,11 @@ example : (prepare false exStmt { exCall with args := exCall.args.take 2, kwargs
     (fun p => sem exRow p.conj p.params) = .ok (some .tt) := by
   decide +kernel
 
+/-- default order `id`, overridden per call by `_order_by="id DESC"` -/
+private def exStmtD : Stmt := { exStmt with orderBy := some "id".toList }
+private def exCallD : Call :=
+  { exCall with kwargs := ("_order_by".toList, .scalar (.text "id DESC".toList)) :: exCall.kwargs }
+
 private def exTable : List Cells :=
   [[("id".toList, .int 1), ("a".toList, .int 7), ("b".toList, .text "B".toList), ("c".toList, .null)],
    [("id".toList, .int 2), ("a".toList, .int 1), ("b".toList, .text "y".toList), ("c".toList, .text "it's".toList)],
@@ -311,19 +356,34 @@ private def exTable : List Cells :=
 /-- `b NOT IN (…, NULL)` never holds (`in_semantics`): the example call selects nothing and `one`
 raises; without the NULL in the list it selects row 2 only (row 1: `c = 'it''s'` unknown, row 3:
 OR group unknown), and `one` returns it -/
-example : run false "SELECT id FROM t".toList none (some [("id".toList, true)]) exCall .one exTable
+example : run false exStmtD (some [("id".toList, true)]) exCallD .one exTable
     = .error (.py .valueError) := by
   decide +kernel
 
-example : (run false "SELECT id FROM t".toList none (some [("id".toList, true)])
-      { exCall with args := exCall.args.take 2 ++
+example : (run false exStmtD (some [("id".toList, true)])
+      { exCallD with args := exCall.args.take 2 ++
           [some (.triple "b".toList "!=".toList (.list [.text "x'; DROP TABLE t;--".toList]))] } .one exTable).map
     (fun r => r.map fun rows => rows.map fun c => c.get? "id".toList) = .ok (some [some (.int 2)]) := by
   decide +kernel
 
-example : (run false "SELECT id FROM t".toList none (some [("id".toList, true)])
-      { args := [some (.triple "a".toList ">=".toList (.scalar (.int 1)))], kwargs := [] } .list exTable).map
+example : (run false exStmtD (some [("id".toList, true)])
+      { args := [some (.triple "a".toList ">=".toList (.scalar (.int 1)))],
+        kwargs := [("_as_scalars".toList, .scalar (.int 1)), ("_order_by".toList, .scalar (.text "id DESC".toList))] }
+      .list exTable).map
     (fun r => r.map fun rows => rows.map fun c => c.get? "id".toList) = .ok (some [some (.int 2), some (.int 1)]) := by
+  decide +kernel
+
+/-- a keyword filter on a column whose name starts with an underscore is a filter like any other;
+`_order_by=None` cancels the default order and `_as_scalars` leaves no trace -/
+example : (prepare false exStmtD
+      { args := [], kwargs := [("_deleted".toList, .scalar (.int 0)), ("_order_by".toList, .scalar .null),
+                               ("_as_scalars".toList, .scalar (.int 1)), ("_Rev2".toList, .scalar .null)] }).map
+    (fun p => (p.text, p.params)) =
+    .ok ("SELECT id FROM t WHERE _Rev2 IS NULL AND _deleted = ?".toList, [.int 0]) := by
+  decide +kernel
+
+example : (prepare false exStmtD { args := [], kwargs := [("_order_by".toList, .scalar (.int 5))] }).map (·.text)
+    = .error (.py .typeError) := by
   decide +kernel
 
 end examples
